@@ -3,6 +3,7 @@ package oidc
 import (
 	"encoding/json"
 	"os"
+	"slices"
 	"time"
 
 	jose "github.com/go-jose/go-jose/v4"
@@ -107,7 +108,8 @@ type AccessTokenClaims struct {
 func NewAccessTokenClaims(issuer, subject string, audience []string, expiration time.Time, jwtid, clientID string, skew time.Duration) *AccessTokenClaims {
 	now := time.Now().UTC().Add(-skew)
 	if len(audience) == 0 {
-		audience = append(audience, clientID)
+		// never append in place: an empty slice handed in by the caller may have capacity
+		audience = []string{clientID}
 	}
 	return &AccessTokenClaims{
 		TokenClaims: TokenClaims{
@@ -343,7 +345,9 @@ func AppendClientIDToAudience(clientID string, audience []string) []string {
 			return audience
 		}
 	}
-	return append(audience, clientID)
+	// the audience belongs to the caller (usually a storage owned request object that
+	// other requests share): never append in place
+	return append(slices.Clone(audience), clientID)
 }
 
 func GenerateJWTProfileToken(assertion *JWTProfileAssertionClaims) (string, error) {
